@@ -167,11 +167,19 @@ Definition strip_profile_conflicts (p : profile) (args : list str) : list str :=
        | Some (g, s, r) => g ++ s :: strip_tail p r
        end.
 
+(* tokens before the first `--` *)
+Fixpoint before_dd (r : list str) : list str :=
+  match r with
+  | [] => []
+  | a :: r' => if str_eqb a dd then [] else a :: before_dd r'
+  end.
+
 Definition is_nil {A} (l : list A) : bool := match l with [] => true | _ => false end.
 
-(* for option in options { if !args.iter().any(|arg| arg == option) { out.push(option) } } *)
-Definition missing_pins (p : profile) (args : list str) : list str :=
-  filter (fun o => negb (mem_str o args)) (profile_options p).
+(* let present = &args[command_index + 1..options_end];   (options_end = the first `--` or the end)
+   for option in options { if !present.iter().any(|arg| arg == option) { out.push(option) } } *)
+Definition missing_pins (p : profile) (present : list str) : list str :=
+  filter (fun o => negb (mem_str o present)) (profile_options p).
 
 Definition args_with_internal_git_profile (p : profile) (args : list str) : list str :=
   if profile_eqb p General then args
@@ -181,7 +189,7 @@ Definition args_with_internal_git_profile (p : profile) (args : list str) : list
     | None => a1
     | Some (g, s, r) =>
         if is_nil (profile_options p) then a1
-        else g ++ s :: missing_pins p a1 ++ r
+        else g ++ s :: missing_pins p (before_dd r) ++ r
     end.
 
 (* args.windows(2).any(|pair| pair[0] == "-c" && pair[1].starts_with("core.hooksPath=")) *)
@@ -210,21 +218,96 @@ Definition effective_args (disabled : bool) (p : profile) (args : list str) : li
 Definition global_args_for_exec (global_args : list str) : list str :=
   if mem_str gen_exec_global_opt global_args then global_args else global_args ++ [gen_exec_global_opt].
 
-(* find_repository: normalisation of the user's global args; root = the work tree (or git dir) *)
-Definition normalize_global_args (global_args : list str) (root : str) : list str :=
-  match global_args with
-  | [] => [gen_norm_flag; root]
-  | [f; x] => if str_eqb f gen_norm_flag && negb (str_eqb x root) then [f; root] else global_args
-  | _ => global_args
+(* Path::is_relative / PathBuf::join on Unix, on the textual level (no normalisation of `..`) *)
+Definition c_slash : cp := 47.
+Definition path_is_relative (v : str) : bool := negb (first_is c_slash v).
+Definition path_join (base v : str) : str :=
+  if path_is_relative v then (if last_is c_slash base then base ++ v else base ++ c_slash :: v) else v.
+
+Definition path_opts : list str := gen_path_opts.
+
+(* the `--opt=value` arm of absolutize_git_dir_and_work_tree for one token *)
+Fixpoint absolutize_eq (base : str) (opts : list str) (a : str) : str :=
+  match opts with
+  | [] => a
+  | o :: opts' =>
+      match strip_prefix (o ++ [c_eqs]) a with
+      | Some v => if path_is_relative v then o ++ c_eqs :: path_join base v else a
+      | None => absolutize_eq base opts' a
+      end
   end.
 
-(* DESIGN: the shapes that are normalised; every other shape is left as typed (known class C12-K1
-   when the effective directory is not the work tree root) *)
+(* fn absolutize_git_dir_and_work_tree: the loop visits every index; at an exact `--git-dir` /
+   `--work-tree` it rewrites the NEXT token (which is then visited in its rewritten form).
+   prev = the previous (possibly rewritten) token was such an exact option. *)
+Fixpoint absolutize (base : str) (args : list str) (prev : bool) : list str :=
+  match args with
+  | [] => []
+  | a :: rest =>
+      let a1 := if prev && path_is_relative a then path_join base a else a in
+      let exact := mem_str a1 path_opts in
+      (if exact then a1 else absolutize_eq base path_opts a1) :: absolutize base rest exact
+  end.
+
+(* fn resolve_command_base_dir: the current directory followed through the user's `-C` options *)
+Fixpoint resolve_command_base_dir (cur : str) (ga : list str) : option str :=
+  match ga with
+  | [] => Some cur
+  | f :: rest =>
+      if str_eqb f gen_norm_flag then
+        match rest with
+        | [] => None                                  (* Missing path after -C *)
+        | p :: rest' => resolve_command_base_dir (path_join cur p) rest'
+        end
+      else resolve_command_base_dir cur rest
+  end.
+
+(* the `names` closure: some argument is the option itself or option=value *)
+Definition names_opt (o : str) (ga : list str) : bool :=
+  existsb (fun a => match strip_prefix o a with
+                    | Some rest => is_nil rest || first_is c_eqs rest
+                    | None => false
+                    end) ga.
+
+(* find_repository: normalisation of the user's global args; root = the work tree (or git dir),
+   base = resolve_command_base_dir, git_dir_raw = the --git-dir line of rev-parse (joined to base when
+   relative).  [] and [-C x] become [-C root]; every other shape keeps its options (relative
+   --git-dir / --work-tree made absolute; a --work-tree without --git-dir gets the discovered git dir)
+   and gets a final `-C root`. *)
+Definition other_shape_args (ga : list str) (root base git_dir_raw : str) : list str :=
+  absolutize base ga false
+  ++ (if names_opt (s2l "--work-tree") ga && negb (names_opt (s2l "--git-dir") ga)
+      then [s2l "--git-dir=" ++ path_join base git_dir_raw] else [])
+  ++ [gen_norm_flag; root].
+
+Definition normalize_global_args (global_args : list str) (root base git_dir_raw : str) : list str :=
+  match global_args with
+  | [] => [gen_norm_flag; root]
+  | [f; x] =>
+      if str_eqb f gen_norm_flag then (if negb (str_eqb x root) then [f; root] else global_args)
+      else other_shape_args global_args root base git_dir_raw
+  | _ => other_shape_args global_args root base git_dir_raw
+  end.
+
 Definition normalised_shape (global_args : list str) : bool :=
   match global_args with
   | [] => true
   | [f; _] => str_eqb f gen_norm_flag
   | _ => false
+  end.
+
+(* git's side of `-C`: where a git process started in cur ends up (git.c handle_options) *)
+Fixpoint final_dir (tbl : list str) (cur : str) (ga : list str) (skip : bool) : str :=
+  match ga with
+  | [] => cur
+  | a :: rest =>
+      if skip then final_dir tbl cur rest false
+      else if str_eqb a gen_norm_flag then
+        match rest with
+        | [] => cur
+        | p :: rest' => final_dir tbl (path_join cur p) rest' false
+        end
+      else final_dir tbl cur rest (takes_value_in tbl a)
   end.
 
 (* ================================================================================ PART 2 *)
@@ -336,13 +419,6 @@ Fixpoint scan (c : comp) (toks : list str) (cur : option str) : option str :=
         | v :: rest' => scan c rest' (upd cur (split_effect c t v))
         end
       else scan c rest (upd cur (tok_effect c t))
-  end.
-
-(* tokens before the first `--` *)
-Fixpoint before_dd (r : list str) : list str :=
-  match r with
-  | [] => []
-  | a :: r' => if str_eqb a dd then [] else a :: before_dd r'
   end.
 
 (* from the first `--` on (inclusive) *)
@@ -539,19 +615,15 @@ Definition tame (p : profile) (t : str) : bool :=
 Definition pins_wf (p : profile) : bool :=
   forallb (fun o => is_dash o && negb (str_eqb o dd) && tame p o) (profile_options p).
 
-(* decidable forms of the two hypotheses of C12_profile_pins (Proofs: pins_not_outside_b_spec,
-   survivors_tame_b_spec) *)
-Definition pins_not_outside_b (p : profile) (g r : list str) : bool :=
-  forallb (fun o => negb (mem_str o g) && negb (mem_str o (from_dd r))) (profile_options p).
-
+(* decidable form of the hypothesis of C12_profile_pins (Proofs: survivors_tame_b_spec) *)
 Definition survivors_tame_b (p : profile) (r : list str) : bool :=
   forallb (fun t => should_drop p t || tame p t) (before_dd r).
 
-(* (subcommand found, pins not outside, survivors tame) of an argument vector *)
-Definition hyps_b (p : profile) (args : list str) : bool * bool * bool :=
+(* (subcommand found, survivors tame) of an argument vector *)
+Definition hyps_b (p : profile) (args : list str) : bool * bool :=
   match find_sub args with
-  | None => (false, false, false)
-  | Some (g, _, r) => (true, pins_not_outside_b p g r, survivors_tame_b p r)
+  | None => (false, false)
+  | Some (_, _, r) => (true, survivors_tame_b p r)
   end.
 
 (* ================================================================================ PART 3 *)
@@ -655,7 +727,7 @@ Definition lits_ok (p : profile) (lits : list str) : bool :=
 Definition extra_ok (k : parser_kind) (lits : list str) : bool :=
   match k with
   | PKBlame => has_lit lits "--line-porcelain" || has_lit lits "--porcelain"
-  | PKStatus => has_lit_prefix lits "--porcelain" && has_lit lits "-z"
+  | PKStatus => has_lit_prefix lits "--porcelain" && has_lit lits "-z" && has_lit_prefix lits "--untracked-files="
   | PKGrep => has_lit lits "--no-color" || has_lit lits "--color=never"
   | _ => true
   end.
@@ -674,9 +746,7 @@ Definition entry_ok (e : inv_entry) : bool :=
    ok) — see inventory_exceptions_tight. *)
 Definition exceptions : list (str * str * str) :=
   map (fun x => match x with (a, b, c) => (s2l a, s2l b, s2l c) end)
-  [ ("src/git/diff_tree_to_tree.rs", "diff_tree_to_tree",
-     "UNCOVERED: git diff --raw -z without --no-renames under RawDiffParse: the records follow diff.renames (known class C12-K4)");
-    ("src/git/refs.rs", "grep_ai_notes",
+  [ ("src/git/refs.rs", "grep_ai_notes",
      "UNCOVERED: git grep -nI without --no-color under General: the records follow color.ui / color.grep (git-ai search only)");
     ("src/authorship/range_authorship.rs", "get_git_diff_stats_for_range",
      "numstat without -z: paths are quoted per core.quotePath; only matched against ignore patterns (stats)");
